@@ -134,6 +134,34 @@ func BuildRequest(method, path, ctype string, body []byte) []byte {
 	return b.Bytes()
 }
 
+// BeginRequest sends only the head of a request with "Expect: 100-continue" and waits for the interim
+// "100 Continue", which the server sends when the handler starts to read the body: at that point the handler is
+// running and blocked. FinishRequest sends the body and returns the final response. Everything done on other
+// connections in between overlaps with this handler — a deterministic way to interleave two handlers.
+func (k *Ctl) BeginRequest(method, path, ctype string, bodyLen int) error {
+	var b bytes.Buffer
+	fmt.Fprintf(&b, "%s %s HTTP/1.1\r\nHost: accessory.local\r\nContent-Type: %s\r\nContent-Length: %d\r\nExpect: 100-continue\r\n\r\n", method, path, ctype, bodyLen)
+	if err := k.Send(b.Bytes()); err != nil {
+		return err
+	}
+	m, err := k.ReadMsg()
+	if err != nil {
+		return err
+	}
+	if m.Status != 100 {
+		return fmt.Errorf("expected 100 Continue, got %d", m.Status)
+	}
+	return nil
+}
+
+// FinishRequest completes a request started with BeginRequest.
+func (k *Ctl) FinishRequest(body []byte) (*Msg, []*Msg, error) {
+	if err := k.Send(body); err != nil {
+		return nil, nil, err
+	}
+	return k.Await()
+}
+
 // ReadMsg reads one HTTP or EVENT message from the plaintext view.
 func (k *Ctl) ReadMsg() (*Msg, error) {
 	k.C.SetReadDeadline(time.Now().Add(k.Timeout))
